@@ -40,13 +40,6 @@ type Replay struct {
 	MinRuns   int         `json:"min_runs,omitempty"`
 }
 
-func extraFor(p *Plan) Extra {
-	if f, ok := Extras[p.Prop]; ok {
-		return f(p)
-	}
-	return Extra{}
-}
-
 func envInt(name string, def int) int {
 	if v := os.Getenv(name); v != "" {
 		n, err := strconv.Atoi(v)
@@ -105,7 +98,7 @@ func TestWorker(t *testing.T) {
 			return
 		}
 		emit(map[string]any{"start": r.RunIndex})
-		res := Run(t, r.Plan, core.NewReplay(r.Decisions), extraFor(r.Plan), true)
+		res := RunPlan(t, r.Plan, core.NewReplay(r.Decisions), true)
 		res.Decisions = nil
 		emit(res)
 		return
@@ -115,8 +108,10 @@ func TestWorker(t *testing.T) {
 	if gen == nil && idx == nil {
 		t.Fatalf("no generator for %s", prop)
 	}
-	if os.Getenv("VERIF_ENUM_SIZE") != "" && prop == "C02" {
-		emit(map[string]any{"enum_size": C02EnumSize(t)})
+	if os.Getenv("VERIF_ENUM_SIZE") != "" {
+		if f, ok := EnumSize[prop]; ok {
+			emit(map[string]any{"enum_size": f(t)})
+		}
 		return
 	}
 	base := uint64(envInt("VERIF_SEED", 1))
@@ -153,7 +148,8 @@ func TestWorker(t *testing.T) {
 			defer jf.Close()
 			st.Journal = jf
 		}
-		res := Run(t, plan, st, extraFor(plan), os.Getenv("VERIF_DUMPLOG") != "")
+		res := RunPlan(t, plan, st, os.Getenv("VERIF_DUMPLOG") != "")
+		res.Seed = seed
 		if dp := os.Getenv("VERIF_DUMPLOG"); dp != "" {
 			os.WriteFile(fmt.Sprintf("%s.%d", dp, i), []byte(strings.Join(res.LogTail, "\n")+"\n"), 0o644)
 		}
